@@ -81,14 +81,6 @@ def getColinearY (F : FieldOps α) (p0 p1 : α × α) (x : α) : Option α :=
 
 end TF.Model.Poly
 
-/-! ### `truncate` of the C09 model with machine arithmetic -/
-namespace TF.Model.PolyD
-variable {α : Type}
-/-- `truncate(k)` as compiled in the release profile: `k + 1` wraps at `usize::MAX` -/
-def truncateUsize (F : FieldOps α) (p : List α) (k : Nat) : List α :=
-  ((revNorm F p).take ((k + 1) % TF.Model.Poly.USIZE_MOD)).reverse
-end TF.Model.PolyD
-
 /-! ### zerofier trees assembled by hand from the public constructors `Leaf::new`, `Branch::new`, `Padding` -/
 namespace TF.Model.PolyI
 variable {α : Type}
